@@ -168,7 +168,9 @@ impl Reader {
                         return Err(format::Error::Malformed);
                     }
                 }
-                if !(0 <= t.num && t.num <= self.header.hr.num_items - t.start) {
+                // `num_items - start` overflows for a very negative `start`.
+                let max_num = self.header.hr.num_items.checked_sub(t.start);
+                if !(0 <= t.num && max_num.map_or(false, |max_num| t.num <= max_num)) {
                     error!("invalid item_type num: must be in range 0 to num_items - start + 1, item_type={} type_id={} start={} num={}", i, t.type_id, t.start, t.num);
                     return Err(format::Error::Malformed);
                 }
